@@ -88,6 +88,8 @@ impl<Octets> UncertainName<Octets> {
         if slice.len() > Name::MAX_LEN {
             return Err(UncertainDnameErrorEnum::LongName.into());
         }
+        // A relative name must leave room for the root label.
+        let relative_too_long = slice.len() > Name::MAX_LEN - 1;
         loop {
             let (label, tail) = Label::split_from(slice)?;
             if label.is_root() {
@@ -98,6 +100,9 @@ impl<Octets> UncertainName<Octets> {
                 }
             }
             if tail.is_empty() {
+                if relative_too_long {
+                    return Err(UncertainDnameErrorEnum::LongName.into());
+                }
                 return Ok(false);
             }
             slice = tail;
